@@ -38,6 +38,26 @@ def inplace_methods(repo):
     return out
 
 
+def _inplace_value(c):
+    """Value of the inplace= argument of a method call record when it is
+    decidable for a receiver that *is* self: a constant, or the idiom
+    `inplace=recv is not self` (in place only on a copy)."""
+    ip = c['inplace']
+    if isinstance(ip, ast.Constant):
+        return bool(ip.value)
+    node = c.get('node')
+    if isinstance(ip, ast.Compare) and len(ip.ops) == 1 and isinstance(
+            node, ast.Call) and isinstance(node.func, ast.Attribute):
+        recv = dotted(node.func.value)
+        sides = {dotted(ip.left), dotted(ip.comparators[0])}
+        if recv and sides == {recv, 'self'} and c['table'] == 'self':
+            if isinstance(ip.ops[0], ast.IsNot):
+                return False
+            if isinstance(ip.ops[0], ast.Is):
+                return True
+    return None
+
+
 def rule_ef_bind(repo, col, only=None):
     """A method with an ``inplace`` parameter binds one name to
     self-or-a-copy as a function of ``inplace``, performs every observable
@@ -101,9 +121,7 @@ def rule_ef_bind(repo, col, only=None):
         bad_calls = []
         for c in fe.method_calls:
             if c['table'] == 'self':
-                ip = c['inplace']
-                val = bool(ip.value) if isinstance(ip, ast.Constant) else \
-                    None
+                val = _inplace_value(c)
                 if E.mutates_receiver(c['method'], val):
                     bad_calls.append(c)
         col.check(not bad_calls, rule, TABLE, q, 'no-mutating-call-on-self',
@@ -181,9 +199,7 @@ def rule_ef_new(repo, col, only=None):
         calls = []
         for c in fe.method_calls:
             if c['table'] == 'self' or c['table'].startswith('param:'):
-                ip = c['inplace']
-                val = bool(ip.value) if isinstance(ip, ast.Constant) else \
-                    None
+                val = _inplace_value(c)
                 if E.mutates_receiver(c['method'], val):
                     calls.append(c)
         if obs:
